@@ -76,6 +76,7 @@ type C struct {
 	scope     []string
 	wkMemo    map[*ssa.Function][]int
 	hookOwner *C
+	rllMemo   map[string]int
 }
 
 func (c *C) Count(name string, n int) { c.Counts[name] += n }
